@@ -621,7 +621,9 @@ def rule_forms(ctx):
         evd = run(ctx, fd, mode='join', oracle=lambda a, st, sk=shape_known: (
             False if a == T.mkcmp('is', DIMS_, T.CONST_NONE) else
             (not sk) if a == T.mkcmp('is', P_('shape'), T.CONST_NONE) else
-            False if (a[0] == 'cmp' and a[1] == '==' and a[3] == const(0) and 'len' in T.show(a[2])) else None))
+            False if (a[0] == 'cmp' and a[1] == '==' and a[3] == const(0) and 'len' in T.show(a[2])) else
+            True if (a[0] == 'call' and T.call_name(a) == 'len' and a[2] == (P_('kwaxes'),)) else           # `if not len(kwaxes):` - some axes are given
+            True if a == P_('kwaxes') else None))
         rets = ret_paths(evd)
         if not rets:
             ctx.violated('R7', fd, 'from_dict(dims=..., shape %s)' % ('given' if shape_known else 'unknown'), 'Axes.from_dict never returns when dims= is given')
